@@ -297,8 +297,24 @@ func TestC15Acceptance(t *testing.T) {
 				c.Memo = `{"orbiter":` + c.Memo + `}`
 			}
 		}
-		for i, n := 0, rapid.IntRange(0, 2).Draw(rt, "others"); i < n; i++ {
-			c.Others = append(c.Others, genMemoSeed(rt, w))
+		// the memos the same parser has seen in between: valid ones, mutated ones, and memos that
+		// belong to other applications sharing the memo field - parsing is a function of the memo,
+		// not of the parser's history
+		for i, n := 0, rapid.IntRange(0, 3).Draw(rt, "others"); i < n; i++ {
+			o := genMemoSeed(rt, w)
+			switch pick(rt, fmt.Sprintf("others/%d", i), []string{"valid", "mutated", "foreign", "foreign"}) {
+			case "mutated":
+				if tree, err := kit.ParseJSON(o); err == nil {
+					kit.Mutate(rt, tree)
+					o = tree.String()
+				}
+			case "foreign":
+				o = pick(rt, fmt.Sprintf("others/%d/foreign", i), []string{
+					`{"forward":{"receiver":"x","port":"transfer","channel":"channel-1"}}`, `{"wasm":{"contract":"c","msg":{}}}`,
+					o[:len(o)-1] + `,"forward":{}}`, `{"note":"hello"}`, `{}`, `null`, `[1]`, ``, `{"Orbiter":{}}`, `{"orbiter":null,"x":1}`,
+				})
+			}
+			c.Others = append(c.Others, o)
 		}
 		rec.Eval()
 		if err := runC15Acceptance(w, c, rec); err != nil {
